@@ -821,6 +821,15 @@ class ClassTranslator:
                 v = self.fresh()
                 pre.append("let %s ← %s %s" % (v, mangle(f.id), " ".join(args)))
                 return pre, v, ret
+            if f.id == "isinstance" and len(node.args) == 2 and isinstance(node.args[0], ast.Name) \
+                    and env.get(node.args[0].id) == "Self" and isinstance(node.args[1], ast.Name) and node.args[1].id == self.cls.name:
+                return pre, "True", "P"       # the other operand is modelled as an object of this class (other classes: not equal)
+            if f.id == "hash" and len(node.args) == 1 and not node.keywords:
+                p, t, ty = self.ex(node.args[0], env)
+                pre += p
+                if ty != "S":
+                    raise Unsupported("hash(%s)" % (ty,))
+                return pre, "(Py.hashKey %s)" % t, "S"       # the key whose hash is taken (the hash function itself is opaque)
             if f.id == "tuple" and len(node.args) == 1 and not node.keywords:
                 p, t, ty = self.ex(node.args[0], env)
                 if not (isinstance(ty, tuple) and ty[0] == "List"):
@@ -929,10 +938,11 @@ class ClassTranslator:
             if isinstance(f.value, ast.Name) and env.get(f.value.id) == "Self" and f.attr in self.methods:
                 # a method of another object of this class (the object `from_rh_vector` has just built)
                 sig = self.sigs[f.attr]
-                if sig["mutates"] or sig["ret"] is None or sig["params"]:
+                if sig["mutates"] or sig["ret"] is None:
                     raise Unsupported("method %s on another object" % f.attr)
+                args = self.bind_args(node, sig, env, pre)
                 v = self.fresh()
-                pre.append("let %s ← %s %s" % (v, mangle(f.attr), mangle(f.value.id)))
+                pre.append(("let %s ← %s %s %s" % (v, mangle(f.attr), mangle(f.value.id), " ".join(args))).rstrip())
                 return pre, v, sig["ret"]
             if f.attr in ("startswith", "endswith", "split") and len(node.args) == 1 and not node.keywords \
                     and isinstance(node.args[0], ast.Constant) and isinstance(node.args[0].value, str) and node.args[0].value:
@@ -1076,6 +1086,8 @@ class ClassTranslator:
                     self.materialize_fns(st.value, env, lines, ctx)
                     p, t, ty = self.ex(st.value, env)
                     lines += p
+                    if ty == "P":
+                        t, ty = "(decide %s)" % t, "B"
                     ctx["rets"].append(ty)
                     want = ctx.get("want")
                     if want and want != ty:
@@ -1815,23 +1827,23 @@ def gen_all(repo, out):
           "TEMPORAL_METRICS": ("Gen.V3.temporal", LS), "ENVIRONMENTAL_METRICS": ("Gen.V3.environmental", LS),
           "METRICS_MANDATORY": ("Gen.V3.mandatory", LS)},
          {"abbreviation": "S", "value": "Dec", "vector": "S", "output_prefix": "B", "text": "S", "metric": "S", "sort": "B",
-          "minimal": "B"},
+          "minimal": "B", "o": "Self"},
          ["round_up"],
          ["parse_vector", "check_mandatory", "handle_scope", "add_missing_optional", "get_value", "get_value_description", "compute_isc_base", "compute_isc",
           "compute_esc", "compute_base_score", "compute_temporal_score", "compute_modified_isc_base",
           "compute_modified_isc_30", "compute_modified_isc", "compute_modified_esc", "compute_environmental_score",
-          "clean_vector", "severities", "temporal_vector", "environmental_vector", "as_json", "scores", "rh_vector"],
+          "clean_vector", "severities", "temporal_vector", "environmental_vector", "as_json", "scores", "rh_vector", "__eq__", "__hash__"],
          "check_mandatory", None),
         ("Code2", "cvss2.py", "CVSS2", "V2",
          {"METRICS_VALUES": ("Gen.V2.values", D2), "METRICS_VALUE_NAMES": ("Gen.V2.valueNames", N2),
           "METRICS_ABBREVIATIONS": ("Gen.V2.abbrs", ("Dict", "S")), "METRICS_ABBREVIATIONS_JSON": ("Gen.V2.jsonKeys", ("Dict", "S")),
           "TEMPORAL_METRICS": ("Gen.V2.temporal", LS), "ENVIRONMENTAL_METRICS": ("Gen.V2.environmental", LS),
           "METRICS_MANDATORY": ("Gen.V2.mandatory", LS)},
-         {"abbreviation": "S", "value": "Dec", "vector": "S", "text": "S", "metric": "S", "sort": "B", "minimal": "B"},
+         {"abbreviation": "S", "value": "Dec", "vector": "S", "text": "S", "metric": "S", "sort": "B", "minimal": "B", "o": "Self"},
          ["round_to_1_decimal"],
          ["parse_vector", "check_mandatory", "get_value", "get_value_description", "impact_equation", "adjusted_impact_equation", "base_score_equation",
           "compute_base_score", "temporal_score_equation", "compute_temporal_score", "compute_environmental_score",
-          "clean_vector", "severities", "temporal_vector", "environmental_vector", "as_json", "scores", "rh_vector"],
+          "clean_vector", "severities", "temporal_vector", "environmental_vector", "as_json", "scores", "rh_vector", "__eq__", "__hash__"],
          "check_mandatory", None),
         ("Code4", "cvss4.py", "CVSS4", "V4",
          {"METRICS_VALUE_NAMES": ("Gen.V4.valueNames", N2), "METRICS_MANDATORY": ("Gen.V4.mandatory", LS),
@@ -1839,10 +1851,10 @@ def gen_all(repo, out):
           "METRICS": ("Gen.V4.metricsOrder", LS), "CVSS_LOOKUP_GLOBAL": ("Gen.V4.lookupTable", ("Dict", "Dec")),
           "EPSILON": ("Gen.V4.epsilon", "Dec"), "MAX_SEVERITY": ("Gen.V4.maxSeverityEq1", ("IDict", "Int"))},
          {"metric": "S", "vector": "S", "abbreviation": "S", "output_prefix": "B", "text": "S", "sort": "B", "minimal": "B",
-          "x": "F"},
+          "x": "F", "o": "Self"},
          ["final_rounding"],
          ["parse_vector", "check_mandatory", "add_missing_optional", "m", "macroVector", "get_value_description", "clean_vector",
-          "compute_base_score", "compute_severity", "as_json", "scores", "severities", "rh_vector"],
+          "compute_base_score", "compute_severity", "as_json", "scores", "severities", "rh_vector", "__eq__", "__hash__"],
          None, [("levels", v4_levels)]),
     ]
     changed = []
